@@ -146,7 +146,7 @@ Section Concrete.
 
   Lemma match_bind_no_macro : forall keys, snd (fst (match_bind t keys)) = false.
   Proof.
-    intros keys. destruct (match_bind_exact t keys) as [[H _] | (e & Hin & _ & H)]; rewrite H; [reflexivity|].
+    intros keys. destruct (match_bind_macro t keys) as [H | (e & Hin & H)]; [exact H|]. rewrite H.
     apply no_macros. exact Hin.
   Qed.
 
